@@ -94,9 +94,12 @@ def drive_sgemem(item):
 
 
 DIRS = {"plain": "work", "space": "my work dir", "squote": "it's here", "dquote": 'say "hi"', "dollar": "cost$HOME", "semicolon": "a;b",
-        "amp": "a&b", "glob": "a*b?[c]", "dash": "-dash", "unicode": "dätä", "paren": "a(b)"}
-CMD = {"plain": "echo plain-token", "quotes": "echo 'single quoted' \"double quoted\"", "dollar": "echo 'cost: $5' \\$HOME"}
-OUT = {"plain-token": "plain", "single quoted double quoted": "quotes", "cost: $5 $HOME": "dollar"}
+        "amp": "a&b", "glob": "a*b?[c]", "dash": "-dash", "unicode": "dätä", "paren": "a(b)", "braces": "run{cores}_{queue}"}
+CMD = {"plain": "echo plain-token", "quotes": "echo 'single quoted' \"double quoted\"", "dollar": "echo 'cost: $5' \\$HOME",
+       # the words the back ends use as placeholders in their own header templates are ordinary text in a spec
+       "braces": "echo \"t=${cores}; {queue} {memory} {job_name} {std_out} {walltime} {account}\""}
+OUT = {"plain-token": "plain", "single quoted double quoted": "quotes", "cost: $5 $HOME": "dollar",
+       "t=; {queue} {memory} {job_name} {std_out} {walltime} {account}": "braces"}
 
 
 def spec_text(cmds, nl):
